@@ -139,6 +139,9 @@ Unref(c) == UnrefOK(c) /\ UnrefDo(c)
 (* response_send / event_send / stats: the connection must be one the application may still use *)
 TouchOK(c) == Live(c)
 Touch(c) == TouchOK(c) /\ UNCHANGED vars
+(* "ForeignFd" (the library sent on a descriptor the loop has registered for another connection while the application
+   was sending on this one) has no action here: a trace that contains it is rejected -- the descriptor number of a
+   torn-down connection was used after it had been given to somebody else *)
 Stats(c) == c \in Ids /\ (Live(c) \/ Open(KDestroyed, c)) /\ UNCHANGED vars
 
 (* connection list: each call returns nothing or a live connection, referenced for the caller *)
